@@ -314,7 +314,9 @@ class Gen:
         from hugr.build.tracked_dfg import TrackedDfg
         ins = self.pick_inputs(sc)
         tags = [w.tag for w in ins]
-        mode = self.rng.choice(["add_nested", "add_nested", "insert_nested", "insert_tracked"])
+        mode = self.rng.choice(["add_nested", "add_nested", "insert_nested", "insert_tracked", "insert_tracked_mixed"])
+        if mode == "insert_tracked_mixed":
+            return self.tracked_mixed(sc)
         if mode == "add_nested":
             b = sc.b.add_nested(*[w.port for w in ins])
             self._note("add_nested")
@@ -365,6 +367,40 @@ class Gen:
         sc.wires.extend(W(node.out(i), t) for i, t in enumerate(otags))
         self.budget -= 1
         self.features.add("nested-dfg")
+
+    def tracked_mixed(self, sc: Scope):
+        """a tracked builder used with commands that mix explicit wires and integer indices on multi-output ops"""
+        from hugr.build.tracked_dfg import TrackedDfg
+        T = self.T
+        q1, q2 = self.produce(sc, "Q"), None
+        q1.used = True
+        q2 = self.produce(sc, "Q")
+        q1.used = False
+        if q2 is q1:
+            return
+        b = TrackedDfg(T["Q"], T["Q"])
+        i0, i1 = b.inputs()
+        idx = b.track_wire(i1)                       # index 0 denotes the second input
+        self._note("track_wire")
+        n = b.add(self.cust("CX", ["Q", "Q"], ["Q", "Q"])(i0, idx))      # explicit wire first, index second: index re-bound to out(1)
+        self._note("TrackedDfg.add")
+        m = b.add(self.cust("H", ["Q"], ["Q"])(idx))                       # consumes CX.out(1) through the index
+        if self.rng.random() < 0.5:
+            k2 = b.track_wire(n.out(0))
+            b.add(self.cust("Measure", ["Q"], ["Q", "B"])(k2))              # multi-output, index at position 0
+            b.set_tracked_outputs()
+            self._note("set_tracked_outputs")
+        else:
+            b.set_indexed_outputs(n.out(0), idx)
+            self._note("set_indexed_outputs")
+        node = sc.b.insert_nested(b, q1.port, q2.port)
+        self._note("insert_nested")
+        self._ledger_args(node, [q1, q2])
+        sc.nodes.append(node)
+        self.handles.append(("insert_tracked_mixed", node, 2))
+        sc.wires.extend([W(node.out(0), "Q"), W(node.out(1), "Q")])
+        self.budget -= 1
+        self.features.update({"tracked", "tracked-mixed", "insert", "nested-dfg"})
 
     def conditional(self, sc: Scope, cw: W, others: list, force_out: list | None = None):
         from hugr.build.cond_loop import Conditional
